@@ -272,9 +272,10 @@ class Ref:
             try:
                 return self.subst(raw, o)
             except RFail as f:
-                # unresolvable reference inside a present value: a missing-key failure (the error may
-                # name the referenced key or the option's own key)
-                raise RFail(set(f.fails) | {("missing", key)})
+                # unresolvable reference inside a present value: a missing-key failure that names the
+                # *referenced* key (confectioner's lookup always raises KeyError(<dotted key>)); the option's
+                # own key is present and must not be reported (seeded change C12-agent6)
+                raise RFail(set(f.fails))
         d = n.get("default")
         if d is None:
             raise RFail({("missing", key)})
